@@ -1,7 +1,7 @@
 (* Extract.v -- extraction of the executable model for the correspondence driver.
    ExtrOcamlBasic only: bool, option, unit, list, prod, sumbool, sumor and the inlined
    andb/orb/negb/fst/snd.  N, Z, positive, nat, string stay the extracted Coq inductives. *)
-Require Import MB.GoSem MB.Val MB.Dispatch.
+Require Import MB.GoSem MB.Val MB.Entry MB.Dispatch.
 From Coq Require Import ExtrOcamlBasic.
 Extraction Language OCaml.
 Extraction "model.ml" lookup e_name e_run e_verdict val_eqb Z.add Z.mul Z.div Z.modulo Z.opp.
